@@ -30,6 +30,7 @@ def digests(pid, vseed, n, jobs):
     from sim.pool import ForkPool
     mod = importlib.import_module(f'checks.{pid.lower()}')
     check = mod.CHECK
+    check.prepare_parent()
     pool = ForkPool(jobs=jobs, timeout=check.timeout)
     traces = [make_trace(check, vseed, 'quick', i) for i in range(n)]
     out = [None] * n
